@@ -553,7 +553,11 @@ func apply3(op string, in *model3d.Mesh, first bool) (out *model3d.Mesh, st opSt
 		st.Merged = len(out.VertexSlice()) < len(in.VertexSlice()) || minVertexGap3(out) < 1e-9
 	}
 	if exact && !isLattice3(in) {
-		exact = false // tolerance-based elimination on arbitrary coordinates is only approximately shape-preserving
+		exact = false // tolerance-based elimination on arbitrary coordinates is only approximately shape-preserving:
+		// faces within acos(1 - 1e-8) = 1.4e-4 rad of each other are merged, which moves the surface by far less than a
+		// thousandth of the volume or the area on the meshes of the palette
+		a, b := vol6(in), vol6(out)
+		st.ExactOK = math.Abs(a-b) <= 1e-3*math.Max(1, math.Abs(a)) && math.Abs(in.Area()-out.Area()) <= 1e-3*math.Max(1, in.Area())
 	}
 	if exact {
 		a, b := vol6(in), vol6(out)
